@@ -2087,6 +2087,11 @@ def disk_partitions(all=False):
     return _psplatform.disk_partitions(all)
 
 
+# Held by disk_io_counters() / net_io_counters() (nowrap=True) while
+# they read the raw counters and pass them to the wrap-numbers cache.
+_nowrap_lock = threading.Lock()
+
+
 def disk_io_counters(perdisk=False, nowrap=True):
     """Return system disk I/O statistics as a namedtuple including
     the following fields:
@@ -2120,11 +2125,17 @@ def disk_io_counters(perdisk=False, nowrap=True):
     executed first otherwise this function won't find any disk.
     """
     kwargs = dict(perdisk=perdisk) if LINUX else {}
-    rawdict = _psplatform.disk_io_counters(**kwargs)
     if nowrap:
-        # Also when no disk is listed: the wrap cache must see that
-        # every disk is gone, else a disk which comes back is "wrapped".
-        rawdict = _wrap_numbers(rawdict, 'psutil.disk_io_counters')
+        # Read + wrap as one step: the wrap cache must receive the
+        # snapshots in the order they were taken, else a stale one
+        # (thread switch in between) is taken for a wrapped counter.
+        with _nowrap_lock:
+            rawdict = _psplatform.disk_io_counters(**kwargs)
+            # Also when no disk is listed: the wrap cache must see that
+            # every disk is gone, else a disk which comes back is "wrapped".
+            rawdict = _wrap_numbers(rawdict, 'psutil.disk_io_counters')
+    else:
+        rawdict = _psplatform.disk_io_counters(**kwargs)
     if not rawdict:
         return {} if perdisk else None
     nt = getattr(_psplatform, "sdiskio", _common.sdiskio)
@@ -2173,11 +2184,15 @@ def net_io_counters(pernic=False, nowrap=True):
     "net_io_counters.cache_clear()" can be used to invalidate the
     cache.
     """
-    rawdict = _psplatform.net_io_counters()
     if nowrap:
-        # Also when no NIC is listed: the wrap cache must see that
-        # every NIC is gone, else a NIC which comes back is "wrapped".
-        rawdict = _wrap_numbers(rawdict, 'psutil.net_io_counters')
+        # Read + wrap as one step, see disk_io_counters().
+        with _nowrap_lock:
+            rawdict = _psplatform.net_io_counters()
+            # Also when no NIC is listed: the wrap cache must see that
+            # every NIC is gone, else a NIC which comes back is "wrapped".
+            rawdict = _wrap_numbers(rawdict, 'psutil.net_io_counters')
+    else:
+        rawdict = _psplatform.net_io_counters()
     if not rawdict:
         return {} if pernic else None
     if pernic:
